@@ -434,6 +434,11 @@ def _run_project(plan: dict, root: str, pdir: str, out: Outcome) -> None:
             for suffix in ('.env',):
                 if exp['env'] is not None and not kind.endswith('&&'):
                     verified(pos + suffix, mode)
+                    form = (plan.get('env_forms') or {}).get(pos + suffix)
+                    if form:
+                        mm_ = out.modes.setdefault(pos + suffix, {})
+                        mm_['form:' + form] = mm_.get('form:' + form, 0) + 1
+                        out.count('monitor:env_form_' + ('string_or_list' if ('string' in form or 'list' in form) else 'dict_or_set'))
             if len(out.samples) < 3 and any(c in ''.join(want) for c in "'$\\"):
                 out.samples.append({'pos': pos, 'mode': mode, 'argv': [a[:80] for a in want[:6]]})
 
@@ -778,7 +783,7 @@ def main() -> int:
     if done < len(order):
         chk.count('projects_skipped_time_budget', len(order) - done)
 
-    for k in ('monitor:pickle_collision_group_compared', 'monitor:exe_rsp_file_checked', 'monitor:argv_compared', 'monitor:test_argv_compared', 'monitor:elem_roundtrip', 'monitor:exe_pickle_checked',
+    for k in ('monitor:env_form_string_or_list', 'monitor:env_form_dict_or_set', 'monitor:pickle_collision_group_compared', 'monitor:exe_rsp_file_checked', 'monitor:argv_compared', 'monitor:test_argv_compared', 'monitor:elem_roundtrip', 'monitor:exe_pickle_checked',
               'monitor:exe_cmdline_checked', 'monitor:rsp_decoded', 'monitor:compile_slot_compared', 'monitor:link_slot_compared',
               'monitor:env_compared', 'monitor:stdin_compared', 'monitor:contract_quote_arg', 'monitor:contract_rsp_quote',
               'monitor:contract_ninja_quote', 'monitor:buildargv_calibrated_agree', 'monitor:literal_calibration',
